@@ -1073,6 +1073,14 @@ class Ex:
 
     def instantiate(self, ci: ClassInfo, args, kwargs, fr):
         libb = self.world.lib_bases(ci)
+        if any(b.split(".")[-1] == "Enum" for b in libb):
+            # Enum(value): the member whose value equals the argument (members are modelled by their values)
+            members = [self.ev(e, Frame(None, ci.module, cls=ci)) for e in ci.classvars.values()]
+            if len(args) != 1:
+                self.throw("TypeError", "Enum() takes one value")
+            if self.st.branch(z_or(*[self.eq(args[0], m, fr) for m in members])):
+                return args[0]
+            self.throw("ValueError", f"not a valid {ci.name}")
         if any(b.split(".")[-1] in BUILTIN_EXC_PARENT for b in libb):
             return self.st.alloc(HObj(ci, {"args": VTuple(list(args)), "__notes__": None}))
         obj = self.st.alloc(HObj(ci, {}))
